@@ -91,8 +91,9 @@ class Stages(AbsInt):
             marks = ()
             for t, pol in path.conds:
                 if isinstance(t, ast.expr) and _mentions_cond(self.prog, fn, _res(fn, t)):
-                    good = _is_cond_guard(self.prog, fn, _res(fn, t))
-                    marks += (('G+' if pol else 'G-') if good else ('Gbad+' if pol else 'Gbad-'),)
+                    kind, flip = _is_cond_guard(self.prog, fn, _res(fn, t))
+                    p = pol != flip
+                    marks += ({'good': 'G', 'bad': 'Gbad', 'unknown': 'Gunk'}[kind] + ('+' if p else '-'),)
             if isinstance(val, frozenset) and marks:
                 val = self.each(val, lambda a: a + marks)
             out = self.join(out, val)
@@ -148,6 +149,8 @@ def run(ctx, rep):
                     construct='condition-number guard')
         elif any(g.startswith('Gbad') for g in guards):
             rep.bad('D2.ridge', fn, fn.node.name, 'the condition-number test has the wrong direction or threshold', construct='cond guard')
+        elif any(g.startswith('Gunk') for g in guards):
+            rep.undecided('D2.ridge', fn, fn.node.name, 'a test on np.linalg.cond(...) of a form that is not recognised', construct='cond guard')
         else:
             rep.ok('D2.ridge', fn, fn.node.name, 'ridge decision taken when cond(c) is LARGE (> 1/machine epsilon)', construct='cond guard')
             good = bool(ridged) and all('G+' in a for a in ridged) and all(x == 'ridge:copulas.utils.EPSILON' for a in ridged for x in a if x.startswith('ridge:')) \
@@ -186,21 +189,45 @@ def run(ctx, rep):
     fit = gauss.gm_method(ctx, 'fit')
     cfg = CFG(fit.node)
     dom = cfg.dominators()
-    calls = [c for c in walk_no_nested(fit.node) if isinstance(c, ast.Call) and call_name(c) == '_get_correlation']
-    for c in calls:
+    from ..idioms import attr_stores, private_closure
+
+    def reaches(call, name):
+        """The call is `self.<name>(...)` or a private helper whose closure calls it; returns the argument expression
+        of the table (first argument, passed through unchanged by the helper) or None."""
+        if call_name(call) == name:
+            return call.args[0] if call.args else None
+        for t in ctx.cg.targets(fit, call, cls):
+            if t.kind == 'proj' and t.fn.name.startswith('_') and t.fn is not fit:
+                for g in private_closure(ctx, t.fn, cls):
+                    inner = [x for x in walk_no_nested(g.node) if isinstance(x, ast.Call) and call_name(x) == name]
+                    if inner:
+                        a = inner[0].args[0] if inner[0].args else None
+                        passthrough = g is t.fn and isinstance(a, ast.Name) and len(t.fn.params) > 1 and a.id == t.fn.params[1] and call.args
+                        return call.args[0] if passthrough else False
+        return None
+
+    calls = [(c, reaches(c, '_get_correlation')) for c in walk_no_nested(fit.node) if isinstance(c, ast.Call)]
+    calls = [(c, a) for c, a in calls if a is not None]
+    for c, table in calls:
         cn = cfg.node_containing(c)
-        from ..idioms import attr_stores
         for attr in ('columns', 'univariates'):
             stores = [st_ for st_, _v in attr_stores(fit, attr)]
             good = any(cfg.node_of(s) is not None and cfg.node_of(s).id in dom.get(cn.id, ()) for s in stores)
+            if not stores:
+                rep.undecided('D5.order', fit, c, f'no store to self.{attr} found in fit itself', construct=f'self.{attr} dominates _get_correlation')
+                continue
             rep.check('D5.order', fit, c, good, f'self.{attr} is assigned before the correlation is computed',
                       f'_get_correlation reads self.{attr} (through _transform_to_normal) before fit assigns it: it uses the '
                       'state of a previous fit or None', construct=f'self.{attr} dominates _get_correlation')
         fc = [x for x in walk_no_nested(fit.node) if isinstance(x, ast.Call) and call_name(x) == '_fit_columns']
-        same = bool(fc) and fc[0].args and c.args and ast.dump(fc[0].args[0]) == ast.dump(c.args[0])
-        rep.check('D5.order', fit, c, same, 'the correlation is computed on the table the marginals were fitted on',
-                  'the correlation is computed on a different table than the marginals', construct='same table')
-    rep.floor('D5.order', '_get_correlation calls in fit', len(calls), 1)
+        if table is False or not fc or not fc[0].args:
+            rep.undecided('D5.order', fit, c, 'which table reaches _get_correlation / _fit_columns is not derived', construct='same table')
+        else:
+            same = ast.dump(fc[0].args[0]) == ast.dump(table)
+            rep.check('D5.order', fit, c, same, 'the correlation is computed on the table the marginals were fitted on',
+                      'the correlation is computed on a different table than the marginals', construct='same table')
+    if not calls:
+        rep.undecided('D5.order', fit, fit.node.name, 'no call in fit that reaches _get_correlation was found', construct='self.columns dominates _get_correlation')
 
 
 def _mentions_cond(prog, fn, test):
@@ -208,22 +235,36 @@ def _mentions_cond(prog, fn, test):
 
 
 def _is_cond_guard(prog, fn, test):
-    """np.linalg.cond(x) > BIG  (or BIG < cond(x)) with BIG = 1/eps or a literal >= 1e8."""
+    """Classifies a test that mentions np.linalg.cond: ('good', flip) for cond(x) > BIG (flip: the test is its negation,
+    e.g. `not cond(x) > BIG` or `cond(x) <= BIG`), ('bad', flip) for a recognised comparison with a threshold that is
+    too small, ('unknown', False) otherwise.  BIG = 1/eps or a literal >= 1e8."""
+    flip = False
+    while isinstance(test, ast.UnaryOp) and isinstance(test.op, ast.Not):
+        test, flip = test.operand, not flip
     if not isinstance(test, ast.Compare) or len(test.ops) != 1:
-        return False
+        return 'unknown', False
     l, r, op = test.left, test.comparators[0], test.ops[0]
-    if isinstance(op, (ast.Lt, ast.LtE)):
+    if not isinstance(op, (ast.Lt, ast.LtE, ast.Gt, ast.GtE)):
+        return 'unknown', False
+    is_cond = lambda e: isinstance(e, ast.Call) and prog.resolve(fn.module, e.func) == 'numpy.linalg.cond'
+    if is_cond(r) and not is_cond(l):
         l, r = r, l
-    elif not isinstance(op, (ast.Gt, ast.GtE)):
-        return False
-    if not (isinstance(l, ast.Call) and prog.resolve(fn.module, l.func) == 'numpy.linalg.cond'):
-        return False
+        op = {ast.Lt: ast.Gt, ast.LtE: ast.GtE, ast.Gt: ast.Lt, ast.GtE: ast.LtE}[type(op)]()
+    if not is_cond(l):
+        return 'unknown', False
+    if isinstance(op, (ast.Lt, ast.LtE)):
+        flip = not flip  # cond(x) <= BIG is the negation of the guard
     v = const_value(r)
     if isinstance(v, (int, float)):
-        return v >= 1e8
+        return ('good' if v >= 1e8 else 'bad'), flip
     if isinstance(r, ast.BinOp) and isinstance(r.op, ast.Div) and const_value(r.left) in (1, 1.0):
         d = prog.resolve(fn.module, r.right) or ''
         dv = const_value(r.right)
-        return d.endswith('epsilon') or d.endswith('.eps') or d == 'copulas.utils.EPSILON' or (
-            isinstance(dv, float) and 0 < dv <= 1e-8)
-    return False
+        if d.endswith('epsilon') or d.endswith('.eps') or d == 'copulas.utils.EPSILON' or (isinstance(dv, float) and 0 < dv <= 1e-8):
+            return 'good', flip
+        if isinstance(dv, (int, float)):
+            return 'bad', flip
+    d = prog.resolve(fn.module, r) or ''
+    if d.endswith(('float_info.max', '.inf', 'float_info.epsilon', '.eps', 'EPSILON', 'float_info.min')):
+        return 'bad', flip  # a threshold that is never / always exceeded by a condition number
+    return 'unknown', False
